@@ -353,3 +353,458 @@ Proof.
   - exact I.
   - cbn. lia.
 Qed.
+
+(* ---- induction over token trees ---- *)
+Section TTreeInd.
+  Variable P : ttree -> Prop.
+  Hypothesis HT : forall t, P (TT t).
+  Hypothesis HG : forall l, Forall P l -> P (TG l).
+  Fixpoint ttree_ind' (t : ttree) : P t :=
+    match t with
+    | TT x => HT x
+    | TG l => HG l ((fix go (l : list ttree) : Forall P l :=
+                       match l with [] => Forall_nil P | x :: r => Forall_cons x (ttree_ind' x) (go r) end) l)
+    end.
+End TTreeInd.
+
+Lemma tall_impl (P Q : token -> Prop) : (forall t, P t -> Q t) -> forall x, tall P x -> tall Q x.
+Proof.
+  intros HPQ. induction x as [t|l IH] using ttree_ind'; [apply HPQ|].
+  intros H. apply tall_TG. apply tall_TG in H. induction IH as [|y r Hy _ IHr]; [exact I|].
+  cbn in *. destruct H as [H1 H2]. split; [apply Hy, H1|apply IHr, H2].
+Qed.
+Lemma lall_impl (P Q : token -> Prop) l : (forall t, P t -> Q t) -> lall P l -> lall Q l.
+Proof.
+  intros HPQ H. apply lall_of_In. intros x Hx. eapply tall_impl; [exact HPQ|]. eapply lall_In; eassumption.
+Qed.
+Lemma real_inb n t : real_token n t -> inb n t.
+Proof. unfold real_token, inb. lia. Qed.
+
+(* ---- parse_location_step ---- *)
+Definition gsz (m : nat) (t : ttree) : Prop := match t with TG g => lsize g <= m | TT _ => True end.
+Definition sinv (n m : nat) (l : list ttree) : Prop := lall (inb n) l /\ Forall (gsz m) l.
+
+Lemma sinv_sub n m l l' : (forall x, In x l' -> In x l) -> sinv n m l -> sinv n m l'.
+Proof.
+  intros Hsub [H1 H2]. split.
+  - apply lall_of_In. intros x Hx. eapply lall_In; [exact H1|apply Hsub, Hx].
+  - apply Forall_forall. intros x Hx. rewrite Forall_forall in H2. apply H2, Hsub, Hx.
+Qed.
+Lemma In_skipn {A} (l : list A) k x : In x (skipn k l) -> In x l.
+Proof. intros H. rewrite <- (firstn_skipn k l). apply in_or_app. right; exact H. Qed.
+Lemma sinv_skipn n m l k : sinv n m l -> sinv n m (skipn k l).
+Proof. apply sinv_sub. intros x. apply In_skipn. Qed.
+
+Definition pe_ok (n m : nat) (pe : list ttree -> pres expr) : Prop :=
+  forall g, lsize g <= m -> lall (inb n) g -> good n (pe g).
+
+Lemma last_some_In {A} (l : list A) x : last (map Some l) None = Some x -> In x l.
+Proof.
+  induction l as [|y r IH]; cbn; [discriminate|]. destruct r as [|z r'].
+  - cbn. intros H; inversion H. left; reflexivity.
+  - intros H. right. apply IH. exact H.
+Qed.
+
+Lemma number_predicate_good n p : good n (number_predicate p).
+Proof.
+  unfold number_predicate. destruct p as [[s|k]| | | |]; [exact I| |exact I|exact I|exact I|exact I].
+  destruct (operators_lookup s_equals); [|cbn; ung].
+  apply rsat_bind; [apply function_ctor_good|]. intros; exact I.
+Qed.
+
+Lemma parse_predicates_eq pe tokens :
+  parse_predicates pe tokens =
+  match tokens with
+  | [] => POk []
+  | _ :: _ =>
+      if initial_tokens_match tokens [S_ OPEN_BRACKET; None; S_ CLOSE_BRACKET] then
+        match tokens with
+        | _ :: TG g :: _ :: rest =>
+            predicate <- pe g ;; predicate <- number_predicate predicate ;;
+            more <- parse_predicates pe rest ;; POk (predicate :: more)
+        | _ :: TT _ :: _ :: _ => PCrash S_guarded_assert
+        | _ => PCrash S_guarded_index
+        end
+      else
+        match last (map Some tokens) None with
+        | None => PCrash S_step_pred_last_index
+        | Some (TG _) => PCrash S_step_pred_last_not_token
+        | Some (TT t) => PRej (mkXpe (Some (t_pos t)) msg_parse_location_step_3 false)
+        end
+  end.
+Proof. destruct tokens; reflexivity. Qed.
+
+Lemma parse_predicates_good n m pe : pe_ok n m pe ->
+  forall k tokens, length tokens <= k -> sinv n m tokens -> good n (parse_predicates pe tokens).
+Proof.
+  intros Hpe. induction k as [|k IH]; intros tokens Hk Hinv.
+  - destruct tokens; [exact I|cbn in Hk; lia].
+  - rewrite parse_predicates_eq. rename tokens into tk.
+    destruct (initial_tokens_match tk [S_ OPEN_BRACKET; None; S_ CLOSE_BRACKET]) eqn:E.
+    + apply initial_match_shape in E. shape E.
+      destruct Hinv as [H1 H2]. cbn [lall] in H1. destruct H1 as [_ [Hg [_ Hr]]]. apply tall_TG in Hg.
+      inversion H2 as [|? ? _ H2']; subst. inversion H2' as [|? ? Hgs H2'']; subst. inversion H2'' as [|? ? _ H2''']; subst.
+      cbn in Hgs.
+      apply rsat_bind; [apply Hpe; assumption|]. intros p _.
+      apply rsat_bind; [apply number_predicate_good|]. intros p' _.
+      apply rsat_bind; [apply IH; [cbn in Hk; lia|split; assumption]|]. intros; exact I.
+    + destruct tk as [|x0 r0]; [exact I|].
+      destruct (last (map Some (x0 :: r0)) None) as [[t|g]|] eqn:L; try (cbn; ung).
+      apply last_some_In in L. destruct Hinv as [H1 _]. pose proof (lall_In _ _ _ H1 L) as Ht. cbn in Ht.
+      unfold pos_le, inb in *; cbn. lia.
+Qed.
+
+Lemma step_axis_spec n m tokens0 : sinv n m tokens0 ->
+  match step_axis tokens0 with
+  | POk (ax, t1) => t1 = tokens0 \/
+                    exists a b, tokens0 = TT a :: TT b :: t1 /\ tkind_eqb (t_kind b) AXIS_SEPARATOR = true
+  | r => good n r
+  end.
+Proof.
+  intros [H1 _]. unfold step_axis. destruct (initial_tokens_match tokens0 _) eqn:E.
+  - apply initial_match_shape in E. shape E. cbn [nth_tok nth_error pbind].
+    cbn [lall tall] in H1. destruct H1 as [Ht _]. unfold inb in Ht.
+    destruct (axis_ctor (t_str t)) as [ax|e|c|] eqn:A; cbn.
+    + right. exists t, t0. split; [reflexivity|exact K0].
+    + unfold pos_le; cbn. lia.
+    + pose proof (axis_ctor_good n (t_str t)) as G. rewrite A in G. exact G.
+    + pose proof (axis_ctor_good n (t_str t)) as G. rewrite A in G. exact G.
+  - pose proof (axis_ctor_good n s_child) as G. destruct (axis_ctor s_child); cbn; auto.
+Qed.
+
+(* the last token of a step, when it is an axis separator, is a token of the expression itself
+   (not one written by expand_axes): this is what bounds the position of "Missing node test." *)
+Definition okl (n : nat) (x : ttree) : Prop :=
+  match x with TT t => tkind_eqb (t_kind t) AXIS_SEPARATOR = true -> real_token n t | TG _ => True end.
+Definition endok (n : nat) (part : list ttree) : Prop :=
+  match last (map Some part) None with Some x => okl n x | None => True end.
+
+Lemma step_prefix_spec n m tokens1 : sinv n m tokens1 ->
+  match step_prefix tokens1 with
+  | POk (_, t2) => sinv n m t2 /\ (tokens1 <> [] -> t2 <> [])
+  | r => good n r
+  end.
+Proof.
+  intros Hinv. unfold step_prefix.
+  destruct (initial_tokens_match tokens1 [S_ NAME; S_ COLON; S_ NAME]) eqn:E1; cbn [orb].
+  - apply initial_match_shape in E1. shape E1. cbn. split; [apply (sinv_skipn n m _ 2 Hinv)|discriminate].
+  - destruct (initial_tokens_match tokens1 [S_ NAME; S_ COLON; S_ ASTERISK]) eqn:E2.
+    + apply initial_match_shape in E2. shape E2. cbn. split; [apply (sinv_skipn n m _ 2 Hinv)|discriminate].
+    + split; [exact Hinv|auto].
+Qed.
+
+Lemma step_node_test_spec n m prefix tokens2 : sinv n m tokens2 ->
+  match step_node_test prefix tokens2 with
+  | POk (_, t3) => sinv n m t3
+  | r => good n r
+  end.
+Proof.
+  intros Hinv. unfold step_node_test.
+  destruct (initial_tokens_match tokens2 [S_ NAME; S_ OPEN_PARENS; None; S_ CLOSE_PARENS]) eqn:E1.
+  { apply initial_match_shape in E1. shape E1. cbn [nth_tok nth_group nth_error pbind].
+    destruct (negb _); [cbn; ung|]. destruct g as [|[x|g'] gr]; cbn; try ung.
+    apply (sinv_skipn n m _ 4 Hinv). }
+  destruct (initial_tokens_match tokens2 [S_ NAME; S_ OPEN_PARENS; S_ CLOSE_PARENS]) eqn:E2.
+  { apply initial_match_shape in E2. shape E2. cbn [nth_tok nth_error pbind].
+    destruct (node_type_lookup _); cbn; [|ung]. apply (sinv_skipn n m _ 3 Hinv). }
+  destruct (initial_tokens_match tokens2 [S_ ASTERISK]) eqn:E3.
+  { apply (sinv_skipn n m _ 1 Hinv). }
+  destruct (initial_tokens_match tokens2 [S_ NAME]) eqn:E4.
+  { apply initial_match_shape in E4. shape E4. cbn. apply (sinv_skipn n m _ 1 Hinv). }
+  destruct (initial_tokens_match tokens2 [S_ STRUDEL; S_ NAME]) eqn:E5.
+  { apply initial_match_shape in E5. shape E5. cbn. destruct Hinv as [H1 _]. cbn in H1.
+    unfold pos_le, inb in *; cbn. lia. }
+  destruct tokens2 as [|[t|g] r]; cbn; try ung.
+  destruct Hinv as [H1 _]. cbn in H1. unfold pos_le, inb in *; cbn. lia.
+Qed.
+
+Lemma parse_step_good n m pe tokens0 :
+  pe_ok n m pe -> sinv n m tokens0 -> endok n tokens0 -> good n (parse_location_step pe tokens0).
+Proof.
+  intros Hpe Hinv Hend. unfold parse_location_step.
+  pose proof (step_axis_spec n m tokens0 Hinv) as A.
+  destruct (step_axis tokens0) as [[ax t1]|e|c|]; cbn [pbind fst snd]; try exact A.
+  destruct (null t1) eqn:N.
+  - destruct t1; [|discriminate]. unfold step_missing_test. unfold endok in Hend.
+    destruct A as [<-|[a [b [-> Hb]]]]; [cbn; ung|].
+    cbn in *. unfold pos_le; cbn. apply Hend in Hb. unfold real_token in Hb. lia.
+  - assert (Hinv1 : sinv n m t1).
+    { destruct A as [->|[a [b [-> _]]]]; [exact Hinv|apply (sinv_skipn n m _ 2 Hinv)]. }
+    pose proof (step_prefix_spec n m t1 Hinv1) as B.
+    destruct (step_prefix t1) as [[pf t2]|e|c|]; cbn [pbind fst snd]; try exact B.
+    destruct B as [Hinv2 _].
+    pose proof (step_node_test_spec n m pf t2 Hinv2) as C.
+    destruct (step_node_test pf t2) as [[nt t3]|e|c|]; cbn [pbind fst snd]; try exact C.
+    apply rsat_bind; [eapply parse_predicates_good; [exact Hpe|apply Nat.le_refl|exact C]|]. intros; exact I.
+Qed.
+
+(* ---- parse_location_path: the parts of the expanded token list end well ---- *)
+Definition next_not_slash (r : list ttree) : Prop :=
+  match r with y :: _ => is_tok_kind SLASH y = false | [] => False end.
+Fixpoint seq_ok (n : nat) (L : list ttree) : Prop :=
+  match L with [] => True | x :: r => (okl n x \/ next_not_slash r) /\ seq_ok n r end.
+
+Lemma endok_snoc n cur t : endok n (cur ++ [t]) <-> okl n t.
+Proof. unfold endok. rewrite map_app. cbn [map]. rewrite last_last. tauto. Qed.
+
+Lemma partition_endok n : forall L cur, seq_ok n L -> (endok n cur \/ next_not_slash L) ->
+  forall part, In part (partition_aux SLASH L cur) -> endok n part.
+Proof.
+  induction L as [|t r IH]; intros cur Hseq Hcur part Hp; cbn [partition_aux] in Hp.
+  - destruct Hp as [<-|[]]. destruct Hcur as [H|[]]. exact H.
+  - cbn [seq_ok] in Hseq. destruct Hseq as [Ht Hr]. destruct (is_tok_kind SLASH t) eqn:E.
+    + assert (Hc : endok n cur) by (destruct Hcur as [H|H]; [exact H|cbn in H; congruence]).
+      destruct (null cur).
+      * exact (IH [] Hr (or_introl (I : endok n [])) part Hp).
+      * destruct Hp as [<-|Hp]; [exact Hc|]. exact (IH [] Hr (or_introl (I : endok n [])) part Hp).
+    + eapply IH; [exact Hr| |exact Hp]. destruct Ht as [Ht|Ht]; [left; apply endok_snoc; exact Ht|right; exact Ht].
+Qed.
+
+Lemma seq_ok_app n a b : seq_ok n a -> seq_ok n b -> seq_ok n (a ++ b).
+Proof.
+  induction a as [|x r IH]; intros Ha Hb; [exact Hb|]. cbn [app seq_ok] in *. destruct Ha as [Hx Hr].
+  split; [|apply IH; assumption]. destruct Hx as [Hx|Hx]; [left; exact Hx|right].
+  destruct r; [contradiction|exact Hx].
+Qed.
+
+Fixpoint exp_ok (l : list (str * tkind)) : bool :=
+  match l with
+  | [] => true
+  | sk :: r => (negb (tkind_eqb (snd sk) AXIS_SEPARATOR)
+                || match r with sk' :: _ => negb (tkind_eqb (snd sk') SLASH) | [] => false end) && exp_ok r
+  end.
+(* in every replacement list of expand_axes, `::` is followed by something other than `/` *)
+Lemma expansions_ok : forallb (fun e => exp_ok (snd e)) axis_expansions = true.
+Proof. vm_compute. reflexivity. Qed.
+
+Lemma exp_ok_seq n p l : exp_ok l = true -> seq_ok n (map (fun sk => TT (mkTok p (fst sk) (snd sk))) l).
+Proof.
+  induction l as [|sk r IH]; intros H; [exact I|]. cbn [exp_ok] in H. apply andb_true_iff in H. destruct H as [H1 H2].
+  cbn [map seq_ok]. split; [|apply IH; exact H2].
+  apply orb_true_iff in H1. destruct H1 as [H1|H1].
+  - left. cbn. intros K. rewrite K in H1. discriminate.
+  - right. destruct r as [|sk' r']; [discriminate|]. cbn. apply negb_true_iff in H1. exact H1.
+Qed.
+
+Lemma assoc_kind_forallb {A} (f : A -> bool) k : forall tbl v,
+  forallb (fun e => f (snd e)) tbl = true -> assoc_kind k tbl = Some v -> f v = true.
+Proof.
+  induction tbl as [|[k' v'] r IH]; intros v H E; cbn in *; [discriminate|].
+  apply andb_true_iff in H. destruct H as [H1 H2]. destruct (tkind_eqb k k'); [inversion E; subst; exact H1|].
+  apply IH; assumption.
+Qed.
+
+Lemma expand_seq_ok n tokens : lall (real_token n) tokens -> seq_ok n (expand_axes tokens).
+Proof.
+  induction tokens as [|t r IH]; intros H; [exact I|]. cbn [lall] in H. destruct H as [Ht Hr].
+  unfold expand_axes. cbn [flat_map]. apply seq_ok_app; [|apply IH; exact Hr].
+  destruct t as [x|g]; cbn [expand1].
+  - destruct (assoc_kind (t_kind x) axis_expansions) as [l|] eqn:E.
+    + apply exp_ok_seq. eapply (assoc_kind_forallb exp_ok); [exact expansions_ok|exact E].
+    + cbn. split; [left; intros _; exact Ht|exact I].
+  - cbn. split; [left; exact I|exact I].
+Qed.
+
+Lemma expand1_In x t : In x (expand1 t) ->
+  x = t \/ exists y s k, t = TT y /\ x = TT (mkTok (t_pos y) s k).
+Proof.
+  destruct t as [y|g]; cbn [expand1]; [|intros [<-|[]]; left; reflexivity].
+  destruct (assoc_kind (t_kind y) axis_expansions) as [l|]; [|intros [<-|[]]; left; reflexivity].
+  intros H. apply in_map_iff in H. destruct H as [[s k] [<- _]]. right. exists y, s, k. auto.
+Qed.
+
+Lemma expand_sinv n m tokens : sinv n m tokens -> sinv n m (expand_axes tokens).
+Proof.
+  intros [H1 H2]. assert (K : forall x, In x (expand_axes tokens) -> tall (inb n) x /\ gsz m x).
+  { intros x Hx. apply in_flat_map in Hx. destruct Hx as [t [Ht Hx]].
+    pose proof (lall_In _ _ _ H1 Ht) as T1. rewrite Forall_forall in H2. pose proof (H2 _ Ht) as T2.
+    apply expand1_In in Hx. destruct Hx as [->|[y [s [k [-> ->]]]]]; [auto|]. cbn in *. auto. }
+  split; [apply lall_of_In; intros x Hx; apply K, Hx|apply Forall_forall; intros x Hx; apply K, Hx].
+Qed.
+
+Lemma parse_path_good n m pe tokens :
+  pe_ok n m pe -> lall (real_token n) tokens -> Forall (gsz m) tokens -> good n (parse_location_path pe tokens).
+Proof.
+  intros Hpe Hreal Hsz. unfold parse_location_path. destruct (null tokens); [exact I|].
+  assert (Hinv : sinv n m (expand_axes tokens)).
+  { apply expand_sinv. split; [eapply lall_impl; [apply real_inb|exact Hreal]|exact Hsz]. }
+  pose proof (expand_seq_ok n tokens Hreal) as Hseq.
+  destruct (expand_axes tokens) as [|[t0|g] r] eqn:E; try (cbn; ung).
+  rewrite <- E in *. apply rsat_bind; [|intros; exact I].
+  apply rsat_pmap. intros part Hp. apply parse_step_good with (m := m); [exact Hpe| |].
+  - eapply sinv_sub; [|exact Hinv]. intros x Hx. eapply partition_In; eassumption.
+  - exact (partition_endok n _ [] Hseq (or_introl (I : endok n [])) part Hp).
+Qed.
+
+Lemma parse_tokens_good n fuel toks :
+  Forall (real_token n) toks -> length toks < fuel -> good n (parse_tokens fuel toks).
+Proof.
+  intros Hreal Hlen. unfold parse_tokens.
+  pose proof (group_spec n fuel toks Hlen Hreal) as G.
+  destruct (group_enclosed_expressions fuel toks) as [tree|e|c|]; cbn [pbind]; try exact G.
+  destruct G as [G1 G2].
+  assert (Hpe : pe_ok n (length toks) (parse_evaluation_expression fuel)).
+  { intros g Hg Hall. apply parse_expr_good; [lia|exact Hall]. }
+  assert (Hsz : Forall (gsz (length toks)) tree).
+  { apply Forall_forall. intros x Hx. destruct x as [t|g]; [exact I|]. cbn.
+    pose proof (tsize_In _ _ Hx) as T. rewrite tsize_TG in T. lia. }
+  destruct (existsb (is_tok_kind PASEQ) tree).
+  - apply rsat_pmap. intros part Hp. apply parse_path_good with (m := length toks); [exact Hpe| |].
+    + eapply partition_lall; eassumption.
+    + apply Forall_forall. intros x Hx. rewrite Forall_forall in Hsz. apply Hsz. eapply partition_In; eassumption.
+  - apply rsat_bind; [apply parse_path_good with (m := length toks); assumption|]. intros; exact I.
+Qed.
+
+(* the summary the property theorems are read off from *)
+Definition outcome_ok (s : str) (o : outcome) : Prop :=
+  match o with
+  | OOk _ => True
+  | ORej p _ _ => p <= length s
+  | OCrash c => unguarded c
+  | OFuel => False
+  end.
+
+Lemma parse_from_tokenize_ok s : outcome_ok s (parse s).
+Proof.
+  unfold parse, parse_from. pose proof (tokenize_spec s) as T.
+  destruct (tokenize s) as [toks|e|c|]; cbn [pbind]; try contradiction.
+  - destruct T as [T1 T2].
+    pose proof (parse_tokens_good (length s) (S (length s)) toks T1 (le_n_S _ _ T2)) as G.
+    destruct (parse_tokens (S (length s)) toks) as [a|e|c|]; cbn in *; try exact G; try exact I.
+    unfold pos_le in G. destruct (x_pos e); [exact G|lia].
+  - destruct T as [p [Hp1 Hp2]]. cbn. rewrite Hp1. lia.
+Qed.
+
+(* ---- lru_cache: what is stored is what a fresh call returns ---- *)
+Definition cache_sound {V} (f : str -> option V) (c : cache V) : Prop :=
+  forall k v, In (k, v) c -> f k = Some v.
+Definition tok_fn (s : str) : option (list token) := match tokenize s with POk v => Some v | _ => None end.
+Definition parse_fn (s : str) : option xpath_expr := match parse s with OOk v => Some v | _ => None end.
+Definition caches_ok (cs : caches) : Prop :=
+  cache_sound tok_fn (tok_cache cs) /\ cache_sound parse_fn (parse_cache cs).
+
+Lemma cache_find_spec {V} : forall (c : cache V) k v c',
+  cache_find c k = Some (v, c') -> In (k, v) c /\ (forall x, In x c' -> In x c).
+Proof.
+  induction c as [|[k' w] r IH]; intros k v c' H; cbn in H; [discriminate|].
+  destruct (str_eqb k k') eqn:E.
+  - apply str_eqb_eq in E. inversion H; subst. split; [left; reflexivity|intros x Hx; right; exact Hx].
+  - destruct (cache_find r k) as [[w' r']|] eqn:F; [|discriminate]. inversion H; subst.
+    destruct (IH _ _ _ F) as [I1 I2]. split; [right; exact I1|].
+    intros x [<-|Hx]; [left; reflexivity|right; apply I2, Hx].
+Qed.
+
+Lemma In_firstn {A} (l : list A) k x : In x (firstn k l) -> In x l.
+Proof. intros H. rewrite <- (firstn_skipn k l). apply in_or_app. left; exact H. Qed.
+
+Lemma cache_put_sound {V} (f : str -> option V) size c k v :
+  cache_sound f c -> f k = Some v -> cache_sound f (cache_put size c k v).
+Proof.
+  intros Hc Hk k' v' Hin. unfold cache_put in Hin. apply In_firstn in Hin.
+  destruct Hin as [E|Hin]; [inversion E; subst; exact Hk|apply Hc, Hin].
+Qed.
+Lemma cache_put_length {V} size (c : cache V) k v : length (cache_put size c k v) <= size.
+Proof. unfold cache_put. apply firstn_le_length. Qed.
+
+Lemma cache_hit_sound {V} (f : str -> option V) c k v c' :
+  cache_sound f c -> cache_find c k = Some (v, c') -> f k = Some v /\ cache_sound f ((k, v) :: c').
+Proof.
+  intros Hc H. apply cache_find_spec in H. destruct H as [H1 H2]. split; [apply Hc, H1|].
+  intros k' v' [E|Hin]; [inversion E; subst; apply Hc, H1|apply Hc, H2, Hin].
+Qed.
+
+Lemma tokenize_cached_spec c s : cache_sound tok_fn c ->
+  cache_sound tok_fn (fst (tokenize_cached c s)) /\ snd (tokenize_cached c s) = tokenize s.
+Proof.
+  intros Hc. unfold tokenize_cached. destruct (cache_find c s) as [[v c']|] eqn:F.
+  - destruct (cache_hit_sound _ _ _ _ _ Hc F) as [H1 H2]. cbn. split; [exact H2|].
+    unfold tok_fn in H1. destruct (tokenize s); try discriminate. inversion H1; reflexivity.
+  - destruct (tokenize s) as [v|e|x|] eqn:T; cbn [fst snd]; split; try exact Hc; try reflexivity.
+    apply cache_put_sound; [exact Hc|]. unfold tok_fn. rewrite T. reflexivity.
+Qed.
+
+Lemma parse_cached_spec cs s : caches_ok cs ->
+  caches_ok (fst (parse_cached cs s)) /\ snd (parse_cached cs s) = parse s.
+Proof.
+  intros [Ht Hp]. unfold parse_cached. destruct (cache_find (parse_cache cs) s) as [[v pc']|] eqn:F.
+  - destruct (cache_hit_sound _ _ _ _ _ Hp F) as [H1 H2]. cbn. split; [split; assumption|].
+    unfold parse_fn in H1. destruct (parse s); try discriminate. inversion H1; reflexivity.
+  - destruct (tokenize_cached_spec (tok_cache cs) s Ht) as [T1 T2].
+    cbv zeta. rewrite T2. fold (parse s).
+    destruct (parse s) as [v|p m u|c|] eqn:P; cbn [fst snd tok_cache parse_cache]; (split; [split; [exact T1|]|reflexivity]); try exact Hp.
+    apply cache_put_sound; [exact Hp|]. unfold parse_fn. rewrite P. reflexivity.
+Qed.
+
+Lemma step_event_ok cs e : caches_ok cs -> caches_ok (step_event cs e).
+Proof.
+  intros H. destruct e as [s|s| |]; cbn [step_event].
+  - apply parse_cached_spec, H.
+  - destruct H as [Ht Hp]. split; [apply tokenize_cached_spec, Ht|exact Hp].
+  - destruct H as [Ht _]. split; [exact Ht|intros k v []].
+  - destruct H as [_ Hp]. split; [intros k v []|exact Hp].
+Qed.
+
+Lemma run_ok history : caches_ok (run history).
+Proof.
+  unfold run. assert (G : forall h cs, caches_ok cs -> caches_ok (fold_left step_event h cs)).
+  { induction h as [|e h IH]; intros cs H; [exact H|]. cbn. apply IH, step_event_ok, H. }
+  apply G. split; intros k v [].
+Qed.
+
+Lemma parse_cache_transparent history s : snd (parse_cached (run history) s) = parse s.
+Proof. apply parse_cached_spec, run_ok. Qed.
+
+Lemma parse_cache_bounded cs s :
+  length (parse_cache cs) <= parse_cache_size -> length (parse_cache (fst (parse_cached cs s))) <= parse_cache_size.
+Proof.
+  intros H. unfold parse_cached. destruct (cache_find (parse_cache cs) s) as [[v pc']|] eqn:F.
+  - cbn. assert (L : forall (c : cache xpath_expr) k v c', cache_find c k = Some (v, c') -> S (length c') = length c).
+    { induction c as [|[k' w] r IH]; intros k0 v0 c0 E; cbn in E; [discriminate|].
+      destruct (str_eqb k0 k'); [inversion E; subst; reflexivity|].
+      destruct (cache_find r k0) as [[w' r']|] eqn:G; [|discriminate]. inversion E; subst. cbn. f_equal. eapply IH, G. }
+    apply L in F. lia.
+  - cbv zeta. destruct (parse_from s _); cbn [fst snd tok_cache parse_cache]; try exact H. apply cache_put_length.
+Qed.
+
+
+(* ---- statements of Props/C16.v ---- *)
+Definition renders (s : str) (p : nat) (m : str) : Prop :=
+  exists text, xpe_str (Some s) (Some p) (Some m) = Some text.
+
+Lemma total_refuted :
+  parse [97; 47]%N = OCrash S_step_all_tokens_last   (* a/ *) /\
+  parse [47]%N = OCrash S_step_all_tokens_last   (* / *) /\
+  parse [47; 47]%N = OCrash S_step_all_tokens_last   (* // *) /\
+  parse [115; 101; 108; 102; 58; 58; 110; 111; 100; 101; 40; 41; 91; 49; 93; 47]%N = OCrash S_step_all_tokens_last   (* self::node()[1]/ *) /\
+  parse [108; 97; 115; 116; 40; 41]%N = OCrash S_step_node_type   (* last() *) /\
+  parse [97; 93]%N = OCrash S_group_pop   (* a] *) /\
+  parse [97; 91; 49; 32; 111; 114; 93]%N = OCrash S_expr_operand   (* a[1 or] *) /\
+  parse [97; 91; 61; 93]%N = OCrash S_expr_operand   (* a[=] *) /\
+  parse [102; 111; 111; 40; 49; 41]%N = OCrash S_step_pi_name   (* foo(1) *) /\
+  parse [99; 111; 109; 109; 101; 110; 116; 40; 49; 41]%N = OCrash S_step_pi_name   (* comment(1) *) /\
+  parse [97; 91; 102; 40; 44; 41; 93]%N = OCrash S_expr_empty   (* a[f(,)] *).
+Proof. vm_compute. repeat split; reflexivity. Qed.
+
+Lemma total_false :
+  ~ (forall s, (exists e, parse s = OOk e)
+               \/ (exists p m u, parse s = ORej p m u /\ p <= length s /\ renders s p m)).
+Proof.
+  intros H. specialize (H [97; 47]%N). destruct total_refuted as [W _]. rewrite W in H.
+  destruct H as [[e H]|[p [m [u [H _]]]]]; discriminate.
+Qed.
+
+Lemma no_other_outcome s :
+  (exists e, parse s = OOk e) \/ (exists p m u, parse s = ORej p m u) \/ (exists c, parse s = OCrash c /\ unguarded c).
+Proof.
+  pose proof (parse_from_tokenize_ok s) as H. destruct (parse s) as [e|p m u|c|]; cbn in H.
+  - left. eauto.
+  - right; left. eauto.
+  - right; right. eauto.
+  - contradiction.
+Qed.
+
+Lemma position_in_range s p m u : parse s = ORej p m u -> p <= length s.
+Proof. intros E. pose proof (parse_from_tokenize_ok s) as H. rewrite E in H. exact H. Qed.
+
+Lemma rejection_renders s p m (u : bool) : parse s = ORej p m u -> renders s p m.
+Proof. intros _. eexists. reflexivity. Qed.
